@@ -204,6 +204,14 @@ def stage_oracle(ctx: Ctx, progs):
                         sig = 'unparsable|arglike-positional-after-keyword'
                     if edits.eof_trailing_space_case(before_src, op):
                         sig = 'stmt-put-at-eof-without-newline-with-trailing-space-trivia'
+                    if edits.continuation_semicolon_case(before_src, op):
+                        sig = 'stmt-put-before-continuation-semicolon-with-trailing-trivia'
+                    if op['kind'] == 'put_line_comment':
+                        try:
+                            if edits.stmt_before_continuation_semicolon(before_src, edits.node_at(ast.parse(before_src), op['path'])):
+                                sig = 'line-comment-put-before-continuation-semicolon'
+                        except Exception:
+                            pass
                     ctx.violation(sig,
                                   'a query on the edited tree answers differently from the same query on a tree freshly built from its source',
                                   {'start_src': src, 'schedule': schedule, 'history': hist, 'src_now': root.src, **bad})
